@@ -64,6 +64,8 @@ RULES = {
     'R-DICTCOMP': generic_rules.r_dictcomp,
     'R-STALEACC': generic_rules.r_staleacc,
     'R-ZEROTABLE': generic_rules.r_zerotable,
+    'R-LEAKVAR': generic_rules.r_leakvar,
+    'R-STRSORT': generic_rules.r_strsort,
 }
 
 
@@ -130,8 +132,9 @@ PROPS = {
                        'independent decoder recovers the tree, tab-stop widths, terminals output text.',
     },
     'C03': {
-        'rules': ['R-FRAMEFILE', 'R-DISPATCH', 'R-ENC', 'R-NONE', 'R-VOCAB', 'R-AUTOMATON', 'R-OPTKEY', 'R-READER-STATE', 'R-DIRMODE', 'R-OPENMODE', 'R-SIBLING', 'R-OPTSIDE', 'R-PERTREE', 'R-NODELINE', 'DECOR'],
-        'filter': {'R-PERTREE': site('transform.run'),
+        'rules': ['R-FRAMEFILE', 'R-DISPATCH', 'R-ENC', 'R-NONE', 'R-VOCAB', 'R-AUTOMATON', 'R-OPTKEY', 'R-READER-STATE', 'R-DIRMODE', 'R-OPENMODE', 'R-SIBLING', 'R-OPTSIDE', 'R-PERTREE', 'R-NODELINE', 'DECOR', 'R-TABS', 'R-LINK'],
+        'filter': {'R-LINK': site('treeinput.'),
+                   'R-PERTREE': site('transform.run'),
                    'R-OPTSIDE': site('transform.run'),
                    'R-OPENMODE': site('transform.'),
                    'R-SIBLING': rule('R-SIBLING/GFSPLIT', 'R-SIBLING/PARENS'),
@@ -142,7 +145,7 @@ PROPS = {
                        '<fmt>_begin/_end on every path, encodings reach every open and gzip is undone byte-exactly, '
                        'trees from field-poor formats can be written (None defaults), own reader/writer agree on XML '
                        'vocabulary and on the discobracket index convention, options are forwarded, reader state is reset per '
-                       'sentence, directory mode converts every member, output is opened for writing. Also: readers get --src-opts and writers --dest-opts at every dispatch site; gf_split re-assembly agrees across readers; lexer actions; label decorations; per-tree steps do not depend on the sentence counter. Does NOT decide: '
+                       'sentence, directory mode converts every member, output is opened for writing. Also: readers get --src-opts and writers --dest-opts at every dispatch site; gf_split re-assembly agrees across readers; lexer actions; label decorations; per-tree steps do not depend on the sentence counter; export field separators are never empty; readers pair every attach with the parent pointer (writers follow both). Does NOT decide: '
                        'losslessness of a round trip.',
     },
     'C04': {
@@ -200,12 +203,15 @@ PROPS = {
                        'linsub algebra, chain composition, fan-out agreement.',
     },
     'C08': {
-        'rules': ['R-ACCUM', 'R-IDCOUNTER'],
+        'rules': ['R-ACCUM', 'R-IDCOUNTER', 'R-STATE', 'R-ARITY'],
+        'filter': {'R-ARITY': rule('R-ARITY/CHAIN'),
+                   'R-STATE': either(both(rule('R-STATE/G6', 'R-STATE/G5'), site('grammaroutput.')),
+                                     both(rule('R-STATE/G1'), site('grammar')))},
         'explanation': 'Decides the clause "never only the last one seen": every store into a count slot accumulates '
                        '(+=, right-hand side reads the slot, or a local derived from it on every path), entries are '
                        'created only under `key not in table`, the count handed to the binarizer is the source rule\'s '
                        'own count, every writer prints the sum over contexts, task accumulators count each unit once. '
-                       'Also: inside the loop over vertical contexts the count handed over is the context\'s own; zero-initialised counter tables are added to. Does NOT decide: the numeric balance equation.',
+                       'Also: inside the loop over vertical contexts the count handed over is the context\'s own; zero-initialised counter tables are added to; a grammar writer never adds rules to the grammar object it is given (the counts of that object stay what extraction produced); each chain rule of a binarization rewrites the symbol introduced by the rule before it; no state shared between calls through default arguments. Does NOT decide: the numeric balance equation.',
     },
     'C09': {
         'rules': ['R-MUSTUSE', 'R-ENC', 'R-GUARD', 'R-ACCUM', 'R-IDCOUNTER', 'R-SORTEDPOS', 'R-OPTKEY', 'R-STATE', 'R-LOOPSTRIP', 'R-OPENMODE', 'R-DISCONT', 'R-OPTSIDE'],
@@ -254,15 +260,16 @@ PROPS = {
                        'Also: insertions are processed in ascending order; the co-index is kept under keepcoindex only; option strings are split before membership tests; renumbering runs once per deleted token. Does NOT decide: which tokens are traces (string semantics).',
     },
     'C12': {
-        'rules': ['R-FRAME', 'R-LINK', 'R-EDGE', 'R-KEEP', 'R-ORDERED'],
-        'filter': {'R-FRAME': site('transform.root_attach'),
+        'rules': ['R-FRAME', 'R-LINK', 'R-EDGE', 'R-KEEP', 'R-ORDERED', 'R-STATE', 'R-MEMO'],
+        'filter': {'R-STATE': both(rule('R-STATE/G1', 'R-STATE/G2'), site('transform', 'trees')),
+                   'R-FRAME': site('transform.root_attach'),
                    'R-LINK': site('transform.root_attach'),
                    'R-KEEP': site('transform.root_attach'),
                    'R-ORDERED': either(rule('R-ORDERED/DEF'), site('trees.', 'transform.root_attach'))},
         'explanation': 'Decides the frame of root_attach: no node field written, only loop variables over the ordered '
                        'root children move, links paired, the move is dominated by the exact test "left neighbour >= '
                        'first token and right neighbour <= last token", the sibling-skipping loop recomputes both '
-                       'spans per iteration, right_sibling uses the ordered children. Also: the two tests of the sibling scan in integer-linear normal form (skip: starts before the end of the focus; stop: at least two positions after it); spans are fresh when compared. Does NOT decide: equality with '
+                       'spans per iteration, right_sibling uses the ordered children. Also: the two tests of the sibling scan in integer-linear normal form (skip: starts before the end of the focus; stop: at least two positions after it); spans are fresh when compared; no result remembered between calls (mutable defaults, node ids as keys). Does NOT decide: equality with '
                        'the set-based reference.',
     },
     'C13': {
@@ -345,7 +352,7 @@ PROPS = {
                        'caches are written only while loading and dropped completely; writers leave node content and '
                        'the caller\'s grammar as found (None-defaulting, #NNN on constituents, save/restore excepted); no '
                        'output loop over a set except the .start file; readers reset per-sentence state after each '
-                       'yield; label generators are per call. Also: accumulation in extract / binarize; per-tree steps; dropped trees never reach a writer. Does NOT decide: additivity as an equation.',
+                       'yield; label generators are per call. Also: accumulation in extract / binarize; per-tree steps; dropped trees never reach a writer; no transformation moves nodes in the order of a set of nodes (node ids). Does NOT decide: additivity as an equation.',
     },
     'C19': {
         'rules': ['R-ORDERED', 'R-LEVELS', 'R-EXPNUM', 'R-NAV', 'R-LEAFGUARD', 'R-FRAME', 'R-STATE', 'R-MEMO'],
@@ -376,7 +383,7 @@ PROPS = {
 }
 
 # generic misuse patterns (ttsa/rules/generic_rules.py) are looked for in the functions each property is anchored in
-GENERIC = ['R-SUBSTR', 'R-DEADCHECK', 'R-FALSYZERO', 'R-DICTCOMP', 'R-STALEACC', 'R-ZEROTABLE']
+GENERIC = ['R-SUBSTR', 'R-DEADCHECK', 'R-FALSYZERO', 'R-DICTCOMP', 'R-STALEACC', 'R-ZEROTABLE', 'R-LEAKVAR', 'R-STRSORT']
 PROP_SITES = {
     'C01': ('treeinput.', 'trees.parse_label', 'misc.'),
     'C02': ('treeoutput.', 'trees.get_label', 'treeanalysis.gap'),
